@@ -5,7 +5,7 @@ from .workers import *
 
 FILE_TY = "std::fs::File"
 QUEUE_MUTATORS_OK = {"std::collections::VecDeque::push_back": "append", "std::collections::VecDeque::drain": "drain",
-                     "std::collections::VecDeque::clear": "clear"}
+                     "std::collections::VecDeque::clear": "clear", "std::collections::VecDeque::pop_front": "remove oldest"}
 QUEUE_READERS = {"std::collections::VecDeque::len", "std::collections::VecDeque::is_empty", "std::collections::VecDeque::iter",
                  "<&'a std::collections::VecDeque<T, A> as std::iter::IntoIterator>::into_iter", "std::collections::VecDeque::new",
                  "std::collections::VecDeque::front", "std::collections::VecDeque::back", "std::collections::VecDeque::get"}
@@ -42,9 +42,10 @@ def check(world, tier):
     rep.analysed = {"region": S.name, "events": len(S.events)}
     rf = recv_field_syms(S)
     wr = window_roots(S)
-    fi_el = prog.field_index(WINDOW, "elements")
-    fi_file = prog.field_index(WINDOW, "file")
-    fi_chunk = prog.field_index(WINDOW, "chunk_size")
+    wl = world.window_layout()
+    fi_el = wl.get("elements")
+    fi_file = wl.get("file")
+    fi_chunk = wl.get("chunk_size")
     if not (lps and wr and fi_el is not None):
         a.fail("anchor-lost send-structure", "send loop / Window not found in the send region")
         return rep
@@ -67,7 +68,21 @@ def check(world, tier):
         B[root] = sorted(set(B[root]), key=repr)
     a.need(len(B), 1, "block-number update  B := ack.wrapping_add(1)")
     drains = [e for e in S.events if base_name(e) == "std::collections::VecDeque::drain"]
-    a.need(len(set(e.node for e in drains)), 1, "drain of acknowledged chunks")
+    removals = []     # (key, location, starts at the front?, number of chunks removed)
+    for e in drains:
+        snap = e.args[1] if len(e.args) > 1 else None
+        rng = snap[1] if isinstance(snap, tuple) and snap[0] == "agg" else {}
+        start, end = rng.get((0,)), rng.get((1,))
+        removals.append(((e.node, repr(e.args[1])[:2000]), e.loc, start is not None and start[0] == "i" and start[1] == (0, ()), end))
+    if not drains:
+        # the window API is used instead of a drain in sight: Window::remove(k) removes exactly the k oldest chunks (contract C18.remove)
+        rm = [e for e in S.events if e.inlined and base_name(e) == WINDOW + "::remove"]
+        if rm:
+            from . import C18
+            import_clause(world, tier, a, C18, "C18.remove", ("",), "Window::remove(k) removes exactly the k oldest chunks")
+        for e in rm:
+            removals.append(((e.node, repr(e.args[1])[:2000]), e.loc, True, e.args[1] if len(e.args) > 1 else None))
+    a.need(len(set(k for (k, _, _, _) in removals)), 1, "removal of the acknowledged chunks (drain from the front, or Window::remove)")
     for root, ups in B.items():
         sti = eng.static_type(root, ())
         a.ob(sti is not None and prog.types[sti].get("bits") == 16, "block-number-u16", "the sender's block number is not a u16", nontrivial=False)
@@ -85,16 +100,13 @@ def check(world, tier):
         # drained amount vs advance
         Bphi = [sid for nm, sid in eng.sym_ids.items() if isinstance(nm, tuple) and nm and nm[0] == "phi" and len(nm) == 5 and nm[3] == root and nm[4] == ()]
         done = set()
-        for e in drains:
-            kk = (e.node, repr(e.args[1])[:2000])
+        from types import SimpleNamespace
+        for (kk, loc_, front_ok, end) in removals:
             if kk in done:
                 continue
             done.add(kk)
-            snap = e.args[1] if len(e.args) > 1 else None
-            rng = snap[1] if isinstance(snap, tuple) and snap[0] == "agg" else {}
-            start = rng.get((0,))
-            end = rng.get((1,))
-            a.ob(start is not None and start[0] == "i" and start[1] == (0, ()), "drain-not-from-front", "acknowledged chunks are not drained from the front of the queue (range start != 0)", e.loc)
+            e = SimpleNamespace(loc=loc_)
+            a.ob(front_ok, "drain-not-from-front", "acknowledged chunks are not drained from the front of the queue (range start != 0)", e.loc)
             if end is None or end[0] != "i":
                 a.ob(False, "drain-amount-unknown", "cannot determine the number of drained chunks", e.loc)
                 continue
@@ -123,7 +135,7 @@ def check(world, tier):
         bn = snap.get((("v", vi_data), fnames.index("block_num")))
         dt = snap.get((("v", vi_data), fnames.index("data")))
         okd = isinstance(dt, tuple) and dt[0] == "t" and isinstance(dt[1], tuple) and dt[1][0] == "app" and dt[1][1] == "to_vec" and \
-            term_contains(dt, lambda t: isinstance(t, tuple) and len(t) >= 4 and t[0] == "elem" and t[3] == (wroot, wpath + (fi_el,)))
+            term_contains(dt, lambda t: isinstance(t, tuple) and len(t) >= 4 and t[0] == "elem" and t[3] == (wroot, tuple(wpath) + tuple(fi_el)))
         b.ob(okd, "data-payload-not-queue-element", "the payload of a DATA packet is not a copy of the queue element being visited", e.loc,
              sample={"DATA.data": repr(dt)[:100]})
         if isinstance(bn, tuple) and bn[0] == "i":
@@ -144,7 +156,7 @@ def check(world, tier):
                 continue
             sub = ev.args[0][1] if isinstance(ev.args[0], tuple) and ev.args[0][0] == "agg" else (ev.argsnap[0] if ev.argsnap and isinstance(ev.argsnap[0], dict) else {})
             ov = sub.get(("$over",))
-            if ov is not None and ov[0] == "r" and ov[1] == wroot and tuple(ov[2]) == tuple(wpath) + (fi_el,):
+            if ov is not None and ov[0] == "r" and ov[1] == wroot and tuple(ov[2]) == tuple(wpath) + tuple(fi_el):
                 burst_loops.add(lp)
     b.need(len(burst_loops), 1, "burst loop over the queue")
     for bl in sorted(burst_loops, key=repr):
@@ -182,6 +194,25 @@ def check(world, tier):
                     okc = okc and all(isinstance(v, tuple) and v[0] == "i" and any(single_sym(v[1]) == bp for root_b in B for bp in
                                       [sid for nm, sid in eng.sym_ids.items() if isinstance(nm, tuple) and nm and nm[0] == "phi" and len(nm) == 5 and nm[3] == root_b and nm[4] == ()])
                                       for v in init) and bool(init)
+            # the walk over the queue is not repeated with the counter running on: no loop between the transfer loops and the
+            # burst loop (the N+1 copies of duplicate mode belong around the single send, inside the walk)
+            tls = set(S.transfer_loops())
+            inter = []
+            for lp2 in S.loops_containing((fid, h) if (fid, h) not in getattr(eng, "iter_loops", {}) else eng.iter_loops[(fid, h)]["caller"]):
+                if lp2 == (fid, h):
+                    continue
+                if lp2 in tls:
+                    break
+                inter.append(lp2)
+            if inter:
+                # fine if every pass re-initialises the DATA counter before walking the queue again
+                inner_nodes = S.loop_nodes(*inter[0]) - ln
+                reinit = any(wr_[0] == "L" and wp == () and node in inner_nodes and eng.sym_ids.get(("phi", fid, h, wr_, ())) in counters
+                             for (node, wr_, wp, v) in eng.writes_log)
+                if reinit:
+                    inter = []
+            b.ob(not inter, "burst-walk-repeated", "the walk over the window is itself inside another loop (%s): from the second pass on the same chunks go out "
+                 "under block numbers that keep counting" % ", ".join(node_str(prog, x) for x in inter), sample={"loops between transfer loop and burst": len(inter)})
             b.ob(okc, "burst-numbering", "DATA packets of a burst are not numbered B, B+1, ... (wrapping) with exactly one increment per element",
                  sample={"burst loop": node_str(prog, (fid, h)), "counter advanced by wrapping_add(1) once per element from B": okc})
     # ---------------------------------------------------------------- c FILL
@@ -189,7 +220,7 @@ def check(world, tier):
     c.need(len(set(e.node for e in reads)), 1, "file read in the send region")
     pushes = [e for e in S.events if base_name(e) == "std::collections::VecDeque::push_back"]
     c.need(len(set(e.node for e in pushes)), 1, "queue append in the send region")
-    fty = prog.adts[WINDOW]["variants"][0]["fields"][fi_file]["ty"] if fi_file is not None else None
+    fty = leaf_type(prog, WINDOW, fi_file) if fi_file is not None else None
     c.ob(fty is not None and prog.types[fty]["s"] == FILE_TY, "window-file-type",
          "the Window reads through %s instead of an unbuffered std::fs::File: read() may return short counts before the end of the file, and a short "
          "chunk is taken for the final block" % (prog.types[fty]["s"] if fty is not None else "?"), sample={"Window.file": prog.types[fty]["s"] if fty is not None else None})
@@ -232,6 +263,8 @@ def check(world, tier):
              sample={"truncate(n)": str(nm)[:60]})
     # who may touch the file
     file_users(world, c, fi_file)
+    from . import C18
+    import_clause(world, tier, c, C18, "C18.fill", ("read-piece-not-queued", "push-after-short-chunk"), "every piece read is queued, nothing after the short piece")
     # ---------------------------------------------------------------- d QUEUE
     queue_discipline(world, d, fi_el)
     # ---------------------------------------------------------------- f
@@ -259,7 +292,8 @@ def file_users(world, c, fi_file):
     """who may touch Window.file: every std call that receives a reference derived from the field (through moves,
     reborrows, closure captures and crate-local helpers) is the fill's read or the flush's write_all"""
     prog = world.lib
-    uses = [(bp, callee, loc) for (bp, callee, loc, m, bi) in field_ref_sinks(prog, WINDOW, fi_file)]
+    own = leaf_owner(prog, WINDOW, fi_file) if fi_file is not None else None
+    uses = [(bp, callee, loc) for (bp, callee, loc, m, bi) in field_ref_sinks(prog, own[0], own[1])] if own is not None else []
     c.need(len(uses), 2, "uses of Window.file in the crate")
     allowed = {"<std::fs::File as std::io::Read>::read", "std::io::Write::write_all"}
     for (bp, callee, loc) in uses:
@@ -271,7 +305,8 @@ def file_users(world, c, fi_file):
 def queue_discipline(world, d, fi_el):
     prog = world.lib
     uses = []
-    for (bp, callee, loc, mut, bi) in field_ref_sinks(prog, WINDOW, fi_el):
+    own = leaf_owner(prog, WINDOW, fi_el) if fi_el is not None else None
+    for (bp, callee, loc, mut, bi) in (field_ref_sinks(prog, own[0], own[1]) if own is not None else []):
         if callee == "<return>":
             # a &mut to the queue that leaves its function would expose it
             d.ob(not mut or not prog.bodies[bp].vis, "queue-exposed-mutably in %s" % short(bp), "a &mut to the Window's queue is returned from %s" % short(bp), loc)
